@@ -30,7 +30,7 @@ Definition dist_Z (dist : list (list Z)) (v : pix) : option Z :=
   let k := at2 (-1) dist v in if k =? -1 then None else Some k.
 
 Definition prop_check_Z (m n : Z) (image labels : list (list Z)) (mask : list (list bool))
-           (lo dist : list (list Z)) (hint : list (pix * pix)) : bool :=
+           (lo dist : list (list Z)) (hint : list ((pix * pix) * Z)) : bool :=
   prop_check Z Z.leb Z.eqb (fun k => 0 <=? k) Z.add 0 pix eqP (coords m n) (gnbrs m n)
              (at2 false mask) (at2 0 labels) (w_Z image m n) (at2 0 lo) (dist_Z dist) hint.
 
@@ -39,8 +39,9 @@ Definition Spec_Z (m n : Z) (image labels : list (list Z)) (mask : list (list bo
   Spec Z Z.le Z.add 0 pix (coords m n) (gnbrs m n)
        (at2 false mask) (at2 0 labels) (w_Z image m n) (at2 0 lo) (dist_Z dist).
 
-Definition as_hint (x : sx) : list (pix * pix) :=
-  map (fun q => ((as_Z (arg 0 q), as_Z (arg 1 q)), (as_Z (arg 2 q), as_Z (arg 3 q)))) (as_list x).
+(* hint entries on the wire: [vi; vj; ui; uj; label] *)
+Definition as_hint (x : sx) : list ((pix * pix) * Z) :=
+  map (fun q => (((as_Z (arg 0 q), as_Z (arg 1 q)), (as_Z (arg 2 q), as_Z (arg 3 q))), as_Z (arg 4 q))) (as_list x).
 
 (* wire: [m; n; image; labels; mask; lo; dist; hint] *)
 Definition entry_check_z (x : sx) : sx :=
@@ -60,7 +61,7 @@ Definition dist_b64 (dist : list (list Z)) (v : pix) : option Z :=
   let b := at2 bits_neg1 dist v in if b =? bits_neg1 then None else Some b.
 
 Definition prop_check_b64 (m n : Z) (image : list (list float)) (labels : list (list Z))
-           (mask : list (list bool)) (weight : float) (lo dist : list (list Z)) (hint : list (pix * pix)) : bool :=
+           (mask : list (list bool)) (weight : float) (lo dist : list (list Z)) (hint : list ((pix * pix) * Z)) : bool :=
   prop_check Z Z.leb Z.eqb okb64 plus64 0 pix eqP (coords m n) (gnbrs m n)
              (at2 false mask) (at2 0 labels) (w_b64 image m n weight) (at2 0 lo) (dist_b64 dist) hint.
 
@@ -70,17 +71,17 @@ Definition Spec_b64 (m n : Z) (image : list (list float)) (labels : list (list Z
        (at2 false mask) (at2 0 labels) (w_b64 image m n weight) (at2 0 lo) (dist_b64 dist).
 
 (* wire: [m; n; image bits; labels; mask; weight bits; lo; dist bits; hint] *)
-Definition check_b64_sx (x : sx) (lo dist : list (list Z)) (hint : list (pix * pix)) : bool :=
+Definition check_b64_sx (x : sx) (lo dist : list (list Z)) (hint : list ((pix * pix) * Z)) : bool :=
   prop_check_b64 (as_Z (arg 0 x)) (as_Z (arg 1 x)) (map (map float_of_bits) (as_Zss (arg 2 x)))
                  (as_Zss (arg 3 x)) (as_boolss (arg 4 x)) (float_of_bits (as_Z (arg 5 x))) lo dist hint.
 Definition entry_check_b64 (x : sx) : sx :=
   of_bool (check_b64_sx x (as_Zss (arg 6 x)) (as_Zss (arg 7 x)) (as_hint (arg 8 x))).
 
 Definition auto_hint_b64 (m n : Z) (image : list (list float)) (labels : list (list Z))
-           (mask : list (list bool)) (weight : float) (lo dist : list (list Z)) : list (pix * pix) :=
+           (mask : list (list bool)) (weight : float) (lo dist : list (list Z)) : list ((pix * pix) * Z) :=
   auto_hint Z Z.eqb plus64 pix eqP (coords m n) (gnbrs m n)
             (at2 false mask) (at2 0 labels) (w_b64 image m n weight) (at2 0 lo) (dist_b64 dist).
-Definition auto_hint_sx (x : sx) (lo dist : list (list Z)) : list (pix * pix) :=
+Definition auto_hint_sx (x : sx) (lo dist : list (list Z)) : list ((pix * pix) * Z) :=
   auto_hint_b64 (as_Z (arg 0 x)) (as_Z (arg 1 x)) (map (map float_of_bits) (as_Zss (arg 2 x)))
                 (as_Zss (arg 3 x)) (as_boolss (arg 4 x)) (float_of_bits (as_Z (arg 5 x))) lo dist.
 
